@@ -292,6 +292,9 @@ impl FrameSpec {
 pub struct Fault {
     /// radio-call position within the operation (0 = the transmit request)
     pub pos: u16,
+    /// the radio stays unresponsive for this many further calls (an outage rather than one failed call)
+    #[serde(default)]
+    pub extra: u16,
 }
 
 #[derive(Clone, Debug, PartialEq, Eq, Serialize, Deserialize, Default)]
@@ -492,6 +495,17 @@ fn simplify_frames(frames: &[FrameSpec]) -> Vec<Vec<FrameSpec>> {
 
 fn simplify_txn(t: &Txn) -> Vec<Txn> {
     let mut out = Vec::new();
+    if let Some(f) = &t.fault {
+        if f.extra > 0 {
+            for e in [0, f.extra / 2, f.extra - 1] {
+                if e < f.extra {
+                    let mut c = t.clone();
+                    c.fault = Some(Fault { pos: f.pos, extra: e });
+                    out.push(c);
+                }
+            }
+        }
+    }
     if t.fault.is_some() {
         let mut c = t.clone();
         c.fault = None;
